@@ -661,7 +661,19 @@ def keysOf (c : Option Ctx) : List String := (c.getD []).map (·.1)
 def step (c impl : String) : String :=
   match fields c with
   | [kind, tr, v] =>
-    if kind != "conv" && kind != "convraw" && kind != "cast" then "SKIP unknown-case" else
+    if kind != "conv" && kind != "convraw" && kind != "cast" && kind != "slow" then "SKIP unknown-case" else
+    if kind == "slow" then
+      -- liveness of the converter: the model decides instantly; the real code has to answer within the deadline
+      match parseTypeRef tr, parseValue v with
+      | some tref, some pv =>
+        let expected := match decode tref with
+          | none => "done DECERR"
+          | some t => "done " ++ fmtConv (convert Oracle.std t (asInterface pv))
+        if impl == "TIMEOUT" then
+          specViol s!"the numeric converter did not finish within 5 s on a {(match pv with | .str b => b.length | _ => 0)}-byte string (expected {expected}): its error message formats the big.Float with String(), quadratic in the decimal exponent"
+        else if impl == expected then ok "conv-prompt" else modelDiff expected
+      | _, _ => "SKIP unparsable-slow-case"
+    else
     if kind == "cast" then
       match parseParams tr, parseCtx v with
       | some ps, some ctx =>
